@@ -130,3 +130,49 @@ Qed.
 Theorem pending_is_not_live_for_matching : status_in SPending MW_LIVE_STATUS = false /\
   status_in SCancelling MW_LIVE_STATUS = true /\ status_in SUpdating MW_LIVE_STATUS = true /\ status_in SReplacing MW_LIVE_STATUS = true.
 Proof. repeat split; reflexivity. Qed.
+
+(* the request side: a package enters the queue stamped with the time of the update being processed — also when the request
+   targets another market than the one being processed (AOn) — and with the bet delay of ITS market's current book *)
+Lemma request0_stamp cf now st mid s a p :
+  In p (s_queue (request0 cf now st mid s a)) -> In p (s_queue s) \/
+  (pk_created p = now /\ pk_market p = mid /\
+   exists m, get_market mid (s_markets s) = Some m /\ pk_bet_delay p = match mk_book m with Some b => b_delay b | None => 0 end).
+Proof.
+  unfold request0. destruct (get_market mid (s_markets s)) as [m|] eqn:Em; [|left; assumption].
+  assert (NEW : forall q k o mv, In p (q ++ [{| pk_kind := k; pk_market := mid; pk_order := o; pk_created := now;
+                                              pk_bet_delay := match mk_book m with Some b => b_delay b | None => 0 end; pk_mv := mv |}]) ->
+                 q = s_queue s -> In p (s_queue s) \/ (pk_created p = now /\ pk_market p = mid /\
+                 exists m0, Some m = Some m0 /\ pk_bet_delay p = match mk_book m0 with Some b => b_delay b | None => 0 end)).
+  { intros q k o mv Hin ->. apply in_app_or in Hin as [Hin|[<-|[]]]; [left; exact Hin|right]. cbn. split; [reflexivity|split; [reflexivity|]]. exists m. split; reflexivity. }
+  destruct a as [name sel sd t mv|name red|name pp|name price mv|mid' a']; [| | | |intros H; left; exact H].
+  - destruct (negb (market_open m)); [left; assumption|]. cbn [s_queue]. intros H. eapply NEW; [exact H|reflexivity].
+  - destruct (get_order name (mk_orders m)) as [o|]; [|left; assumption].
+    destruct (negb (order_validation_ok o) || negb (market_open m)); [left; assumption|].
+    destruct (so_bet o); [|left; assumption]. destruct (so_type o); try (left; assumption).
+    destruct (match red with Some x => negb (x =? 0) && (remaining o - x <? 0) | None => false end); [left; assumption|].
+    destruct (negb (status_eqb (so_status o) SExecutable)); [left; assumption|]. cbn [s_queue]. intros H. eapply NEW; [exact H|reflexivity].
+  - destruct (get_order name (mk_orders m)) as [o|]; [|left; assumption].
+    destruct (negb (order_validation_ok o) || negb (market_open m)); [left; assumption|].
+    destruct (so_bet o); [|left; assumption]. destruct (so_type o); try (left; assumption).
+    destruct (persist_eqb (so_persist o) pp); [left; assumption|].
+    destruct (negb (status_eqb (so_status o) SExecutable)); [left; assumption|]. cbn [s_queue]. intros H. eapply NEW; [exact H|reflexivity].
+  - destruct (get_order name (mk_orders m)) as [o|]; [|left; assumption].
+    destruct (negb (order_validation_ok o) || negb (market_open m)); [left; assumption|].
+    destruct (so_bet o); [|left; assumption].
+    destruct (so_type o); try (left; assumption);
+    (destruct (so_price o =? price); [left; assumption|]; destruct (negb (status_eqb (so_status o) SExecutable)); [left; assumption|];
+     cbn [s_queue]; intros H; eapply NEW; [exact H|reflexivity]).
+Qed.
+
+Theorem request_stamp cf now st mid s a p :
+  In p (s_queue (request cf now st mid s a)) -> In p (s_queue s) \/
+  (pk_created p = now /\
+   exists target m, pk_market p = target /\ (target = mid \/ exists a', a = AOn target a') /\
+                    get_market target (s_markets s) = Some m /\ pk_bet_delay p = match mk_book m with Some b => b_delay b | None => 0 end).
+Proof.
+  unfold request. intros H.
+  destruct a as [name sel sd t mv|name red|name pp|name price mv|mid' a'];
+    apply request0_stamp in H as [H|(E1 & E2 & m & Em & Ed)]; try (left; exact H); right; (split; [exact E1|]).
+  1-4: exists mid, m; split; [exact E2|split; [left; reflexivity|split; assumption]].
+  exists mid', m. split; [exact E2|split; [right; exists a'; reflexivity|split; assumption]].
+Qed.
